@@ -3,7 +3,9 @@
 set -u
 patch="$1"; id="$2"; tier="${3:-quick}"
 if [ -n "$(git -C /repo status --porcelain)" ]; then echo "/repo is not clean" >&2; exit 2; fi
-if ! git -C /repo apply --3way "$patch" 2>/tmp/try_seed.err && ! git -C /repo apply "$patch" 2>>/tmp/try_seed.err; then echo "patch does not apply: $(cat /tmp/try_seed.err | head -3)"; git -C /repo checkout -- . ; git -C /repo reset -q; exit 3; fi
+if ! git -C /repo apply "$patch" 2>/tmp/try_seed.err; then
+  if ! git -C /repo apply --3way "$patch" 2>>/tmp/try_seed.err; then echo "patch does not apply: $(cat /tmp/try_seed.err | head -3)"; git -C /repo reset -q --hard; exit 3; fi
+fi
 git -C /repo reset -q
 out=$(cd /verif && VERIF_WALL=${VERIF_WALL:-900} ./run.sh "$id" "$tier" 2>&1)
 rc=$?
